@@ -230,6 +230,21 @@ def check_kepler(case):
         dr, dv = rel_err(td, got)
         if dr > 1e-13 or dv > 1e-13:
             raise Violation("timedelta-arg", f"propagate(timedelta) != propagate(date): {dr:.3g}")
+    # 7. the other public routes to the same state: an iteration over that single date, the last point of
+    #    an iteration from the epoch to that date, the tabulated ephemeris
+    for route, get in (("iter(dates=[date])", lambda: list(orb.iter(dates=[date]))[-1]),
+                       ("iter(stop=date, step=dt)", lambda: list(orb.iter(stop=date, step=timedelta(microseconds=case["dt_us"])))[-1]
+                        if case["dt_us"] else res),
+                       ("ephem(stop=date, step=dt)", lambda: list(orb.ephem(stop=date, step=timedelta(microseconds=case["dt_us"])))[-1 if case["dt_us"] > 0 else 0]
+                        if case["dt_us"] else res)):  # (an Ephem keeps its points sorted by date)
+        alt = get()
+        if alt.date != date:
+            raise Violation("route-date", f"{route} ends at {alt.date}, asked {date}")
+        v = as_cart(alt)
+        if not np.array_equal(v, got):
+            dr, dv = rel_err(v, got)
+            if dr > 1e-13 or dv > 1e-13:
+                raise Violation("route", f"{route} gives a state {dr:.3g} (relative) away from propagate(date)")
     nt = abs(dt) > 1 and (e > 1 or abs(n * dt) > math.pi or dt < 0)
     return dict(nt=nt, cls=classes(case, n, dt) + label_cls(case) + ['body:' + case['el']['body']], ratio=worst)
 
